@@ -171,10 +171,11 @@ class Integrate:
         nodes_0to1 = nodes_func(nnodes)
         integ_array = integ_array_func(nnodes)
         knots = curve.knotvector.knots
+        pieces = curve.split()  # a node at the end of a span belongs to that span
         integrals = []
-        for start, end in zip(knots[:-1], knots[1:]):
+        for piece, start, end in zip(pieces, knots[:-1], knots[1:]):
             nodes = tuple(start + (end - start) * node for node in nodes_0to1)
-            curve_vals = tuple(curve.eval(node) for node in nodes)
+            curve_vals = tuple(piece.eval(node) for node in nodes)
             function_vals = tuple(function(node) for node in nodes)
             new_integral = sum(
                 map(np.prod, zip(integ_array, function_vals, curve_vals))
@@ -275,10 +276,11 @@ class Integrate:
         nodes_0to1 = nodes_func(nnodes)
         integ_array = integ_array_func(nnodes)
         knots = curve.knotvector.knots
+        pieces = curve.split()  # a node at the end of a span belongs to that span
         integrals = []
-        for start, end in zip(knots[:-1], knots[1:]):
+        for piece, start, end in zip(pieces, knots[:-1], knots[1:]):
             nodes = tuple(start + (end - start) * node for node in nodes_0to1)
-            curve_vals = tuple(curve.eval(node) for node in nodes)
+            curve_vals = tuple(piece.eval(node) for node in nodes)
             abscurve_vals = tuple(np.sqrt(val @ val) for val in curve_vals)
             function_vals = tuple(function(node) for node in nodes)
             new_integral = sum(
